@@ -201,13 +201,13 @@ theorem getClient_writeMeta (s : St) (n : Name) (c : CState) (n' : Name) :
   simp [getClient, writeMeta_cs]
 
 /-- **installs exactly** — after an accepted create / upgrade / toggle the stored client state is the proposal's,
-    the consensus state at its latest height is the proposal's (create and toggle store none for a TSS consensus state —
-    see `toggle_tss_no_consensus`; upgrade always stores it), the consensus state
+    the consensus state at its latest height is the proposal's (for every kind: unless the client is a TSS client, which
+    has no consensus states — see `tss_install_no_consensus`), the consensus state
     has the client's type, and the client store holds the metadata the (new) type requires, processed at `s.now`. -/
 theorem installs_exactly (s s' : St) (p : Proposal) (c : CState) (k : KState) (hc : p.cs = some c) (hks : p.ks = some k)
     (h : govExec s p = (s', Res.ok)) :
     getClient s' p.name = some c ∧
-    (k.ty ≠ .tss ∨ p.kind = .upgrade → getCons s' p.name c.latest = some k) ∧
+    (c.ty ≠ .tss → getCons s' p.name c.latest = some k) ∧
     (c.ty ≠ .tss → k.ty = c.ty) ∧
     InitialisedFor s' p.name c s.now ∧ s'.now = s.now := by
   obtain ⟨_, hh⟩ := govExec_ok h
@@ -230,13 +230,9 @@ theorem installs_exactly (s s' : St) (p : Proposal) (c : CState) (k : KState) (h
             rw [h2]; exact writeMeta_initialised (set s p.name .cs (.cstate c)) p.name c
           have hC : getClient s2 p.name = some c := by rw [h2, getClient_writeMeta, getClient_set_cs]
           have hN : s2.now = s.now := by rw [h2, writeMeta_now]; rfl
-          by_cases ht : k.ty = .tss
+          by_cases ht : c.ty = .tss
           · simp [ht] at hh; subst hh
-            refine ⟨hC, ?_, fun hne => (hty hne).1, hI, hN⟩
-            intro hor
-            cases hor with
-            | inl h1 => exact absurd ht h1
-            | inr h1 => cases h1
+            exact ⟨hC, fun hne => absurd ht hne, fun hne => (hty hne).1, hI, hN⟩
           · simp [ht] at hh; subst hh
             refine ⟨by rw [getClient_set_cons]; exact hC, fun _ => getCons_set_cons _ _ _ _, fun hne => (hty hne).1,
                     initialised_set_cons _ _ _ _ _ _ hI, hN⟩
@@ -253,7 +249,6 @@ theorem installs_exactly (s s' : St) (p : Proposal) (c : CState) (k : KState) (h
         | panic e => simp [hu] at hh
         | ok s1 =>
           simp only [hu] at hh
-          injection hh with hh; subst hh
           have hS : InitialisedFor s1 p.name c s.now ∧ s1.now = s.now ∧ (c.ty ≠ .tss → k.ty = c.ty) := by
             unfold upgradeState at hu
             cases hcty : c.ty <;> simp only [hcty] at hu
@@ -293,8 +288,13 @@ theorem installs_exactly (s s' : St) (p : Proposal) (c : CState) (k : KState) (h
             · -- tss
               simp at hu; subst hu
               exact ⟨by simp [InitialisedFor, hcty], rfl, fun h => absurd rfl h⟩
-          refine ⟨by rw [getClient_set_cons, getClient_set_cs], fun _ => getCons_set_cons _ _ _ _, hS.2.2,
-                  initialised_set_cons _ _ _ _ _ _ (initialised_set_cs _ _ _ _ _ hS.1), by simpa using hS.2.1⟩
+          by_cases ht : c.ty = .tss
+          · simp [ht] at hh; subst hh
+            exact ⟨getClient_set_cs _ _ _, fun hne => absurd ht hne, hS.2.2,
+                   initialised_set_cs _ _ _ _ _ hS.1, by simpa using hS.2.1⟩
+          · simp [ht] at hh; subst hh
+            exact ⟨by rw [getClient_set_cons, getClient_set_cs], fun _ => getCons_set_cons _ _ _ _, hS.2.2,
+                   initialised_set_cons _ _ _ _ _ _ (initialised_set_cs _ _ _ _ _ hS.1), by simpa using hS.2.1⟩
       · simp [hto] at hh
   · -- toggle
     split at hh
@@ -317,23 +317,19 @@ theorem installs_exactly (s s' : St) (p : Proposal) (c : CState) (k : KState) (h
               rw [h2]; exact writeMeta_initialised (set (clearName s p.name) p.name .cs (.cstate c)) p.name c
             have hC : getClient s2 p.name = some c := by rw [h2, getClient_writeMeta, getClient_set_cs]
             have hN : s2.now = s.now := by rw [h2, writeMeta_now]; rfl
-            by_cases ht : k.ty = .tss
+            by_cases ht : c.ty = .tss
             · simp [ht] at hh; subst hh
-              refine ⟨hC, ?_, fun hne => (hty hne).1, hI, hN⟩
-              intro hor
-              cases hor with
-              | inl h1 => exact absurd ht h1
-              | inr h1 => cases h1
+              exact ⟨hC, fun hne => absurd ht hne, fun hne => (hty hne).1, hI, hN⟩
             · simp [ht] at hh; subst hh
               exact ⟨by rw [getClient_set_cons]; exact hC, fun _ => getCons_set_cons _ _ _ _, fun hne => (hty hne).1,
                      initialised_set_cons _ _ _ _ _ _ hI, hN⟩
 
-/-- toggling to a TSS client with a TSS consensus state leaves exactly the client state in the client store: nothing of
-    the replaced client, and NO consensus state (a TSS client has none; one at height 0-0 would make the client
-    genesis of an export invalid) -/
+/-- toggling to a TSS client leaves exactly the client state in the client store: nothing of the replaced client, and
+    NO consensus state, whatever consensus state the proposal carried (a TSS client has none; one at height 0-0 would
+    make the client genesis of an export invalid) -/
 theorem toggle_tss_no_consensus (s s' : St) (p : Proposal) (c : CState) (k : KState) (hkind : p.kind = .toggle)
-    (hc : p.cs = some c) (hks : p.ks = some k) (hkt : k.ty = .tss) (h : govExec s p = (s', Res.ok)) :
-    c.ty = .tss ∧ ∀ key, get s' p.name key = if key = .cs then some (.cstate c) else none := by
+    (hc : p.cs = some c) (hks : p.ks = some k) (hct : c.ty = .tss) (h : govExec s p = (s', Res.ok)) :
+    ∀ key, get s' p.name key = if key = .cs then some (.cstate c) else none := by
   obtain ⟨_, hh⟩ := govExec_ok h
   unfold handle at hh
   simp only [hkind, hc, hks] at hh
@@ -351,13 +347,8 @@ theorem toggle_tss_no_consensus (s s' : St) (p : Proposal) (c : CState) (k : KSt
         | err e => simp [hi] at hh
         | panic e => simp [hi] at hh
         | ok s2 =>
-          obtain ⟨h2, hty⟩ := initClient_ok hi
-          have hct : c.ty = .tss := by
-            by_cases hne : c.ty = .tss
-            · exact hne
-            · exact absurd ((hty hne).1 ▸ hkt) hne
-          simp [hi, hkt] at hh; subst hh
-          refine ⟨hct, ?_⟩
+          obtain ⟨h2, _⟩ := initClient_ok hi
+          simp [hi, hct] at hh; subst hh
           intro key
           rw [h2]
           simp only [writeMeta, hct, get_set, get_clearName]
@@ -366,6 +357,63 @@ theorem toggle_tss_no_consensus (s s' : St) (p : Proposal) (c : CState) (k : KSt
           · have : ¬ ((p.name, Key.cs) = (p.name, key)) := by
               intro he; exact hkey (by injection he with _ h2; exact h2.symm)
             simp [this, hkey]
+
+/-- the client store of `n` holds no consensus state at all -/
+def NoCons (s : St) (n : Name) : Prop := ∀ h, get s n (.cons h) = none
+
+/-- **a TSS client has no consensus states** — an accepted create / upgrade / toggle that installs a TSS client adds no
+    consensus state, whatever consensus state the proposal carries: after a toggle the client store holds none at all;
+    after a create or an upgrade it holds none if it held none before (a fresh name; a TSS client that never had one). -/
+theorem tss_install_no_consensus (s s' : St) (p : Proposal) (c : CState) (k : KState)
+    (hc : p.cs = some c) (hks : p.ks = some k) (hct : c.ty = .tss) (h : govExec s p = (s', Res.ok))
+    (hpre : p.kind = .toggle ∨ NoCons s p.name) : NoCons s' p.name := by
+  cases hkind : p.kind with
+  | toggle =>
+    intro hh
+    rw [toggle_tss_no_consensus s s' p c k hkind hc hks hct h]; simp
+  | create =>
+    have hpre : NoCons s p.name := by
+      cases hpre with
+      | inl h1 => rw [hkind] at h1; cases h1
+      | inr h1 => exact h1
+    obtain ⟨_, hh⟩ := govExec_ok h
+    unfold handle at hh
+    simp only [hkind, hc, hks] at hh
+    by_cases hself : p.name = s.self
+    · simp [hself] at hh
+    · simp only [hself, ↓reduceIte] at hh
+      split at hh
+      · simp at hh
+      · unfold createClient at hh
+        cases hi : initClient (set s p.name .cs (.cstate c)) p.name c k with
+        | err e => simp [hi] at hh
+        | panic e => simp [hi] at hh
+        | ok s2 =>
+          obtain ⟨h2, _⟩ := initClient_ok hi
+          simp [hi, hct] at hh; subst hh
+          intro hgt
+          rw [h2, writeMeta_cons]
+          simpa using hpre hgt
+  | upgrade =>
+    have hpre : NoCons s p.name := by
+      cases hpre with
+      | inl h1 => rw [hkind] at h1; cases h1
+      | inr h1 => exact h1
+    obtain ⟨_, hh⟩ := govExec_ok h
+    unfold handle at hh
+    simp only [hkind, hc, hks] at hh
+    unfold upgradeClient at hh
+    cases ho : getClient s p.name with
+    | none => simp [ho] at hh
+    | some old =>
+      simp only [ho] at hh
+      by_cases hto : old.ty = c.ty
+      · simp only [hto, ne_eq, not_true_eq_false, ↓reduceIte] at hh
+        have hu : upgradeState s p.name c k = .ok s := by simp [upgradeState, hct]
+        simp [hu, hct] at hh; subst hh
+        intro hgt
+        simpa using hpre hgt
+      · simp [hto] at hh
 
 /-! ### usable: Active, and proofs at the installed height verify once the delay has passed -/
 
@@ -444,7 +492,7 @@ theorem usable (s s' : St) (p : Proposal) (c : CState) (k : KState) (hc : p.cs =
     ((c.ty = .bsc ∨ c.ty = .eth) → c.delay = 0 → verify s' p.name c.latest true "" = some true) := by
   obtain ⟨hC, hK, hT, hI, hN⟩ := installs_exactly s s' p c k hc hks h
   have hk' : c.ty ≠ .tss → getCons s' p.name c.latest = some k ∧ k.ty = c.ty :=
-    fun hne => ⟨hK (Or.inl (by rw [hT hne]; exact hne)), hT hne⟩
+    fun hne => ⟨hK hne, hT hne⟩
   refine ⟨fun hf => status_active s' p.name c k hk' (by rw [hN]; exact hf),
           fun t hf => status_active _ p.name c k hk' hf, ?_, ?_, ?_⟩
   · intro hty t ht
@@ -666,7 +714,9 @@ theorem upgrade_accepts (s : St) (p : Proposal) (c old : CState) (k : KState) (h
     · exact ⟨s, rfl⟩
   obtain ⟨s1, hs1⟩ := hup
   unfold govExec handle upgradeClient
-  simp [validateBasic_of p c hc hn hv, hkind, ho, hc, hks, he, hs1, commit]
+  simp only [validateBasic_of p c hc hn hv, Bool.not_true, Bool.false_eq_true, ↓reduceIte, hkind, ho, hc, hks, he,
+    ne_eq, not_true_eq_false, hs1]
+  split <;> exact ⟨_, rfl⟩
 
 /-- **create, all four types** — accepted under a valid unused name other than the chain's own for a well-formed proposal -/
 theorem create_own_name_rejected (s : St) (p : Proposal) (hkind : p.kind = .create) (hself : p.name = s.self) :
@@ -731,11 +781,14 @@ example : (run init ([.relayer { address := "addrA", addrOk := true, nAddresses 
 -- after bsc -> tss (TSS consensus state): no consensus state at 0-0, nothing but the client state
 example : getCons (run init (exHist.take 10)).1 "chain-b" ⟨0, 0⟩ = none ∧
           get (run init (exHist.take 10)).1 "chain-b" (.sg ⟨0, 200⟩) = none := by decide
--- a client under the chain's own name is refused; an upgrade of a TSS client does store a consensus state at 0-0
+-- a client under the chain's own name is refused; neither create nor upgrade of a TSS client stores a consensus state,
+-- not even when the proposal carries a Tendermint one
 example : (govExec { init with self := "home" } { kind := .create, name := "home", cs := some exTss, ks := some (exK .tss 0) }).2 = .err := by decide
 example : getCons (run init [.prop { kind := .create, name := "abc", cs := some exTss, ks := some (exK .tss 0) },
                              .prop { kind := .upgrade, name := "abc", cs := some exTss, ks := some (exK .tss 0) }]).1 "abc" ⟨0, 0⟩
-          = some (exK .tss 0) := by decide
+          = none := by decide
+example : get (run init [.prop { kind := .create, name := "abc", cs := some exTss, ks := some (exK .tm 5) }]).1 "abc" (.cons ⟨0, 0⟩)
+          = none := by decide
 end Examples
 
 end TM.Lifecycle
